@@ -175,3 +175,44 @@ pub fn c16_help_write_errors(out: &mut Out) {
 		}
 	}
 }
+
+/// C13: a repeated `-t` or `-f` is an invalid command line whatever the two
+/// values are and however they are attached: exit 2, usage on stderr, nothing
+/// on stdout, nothing translated.
+pub fn c13_repeated_options(out: &mut Out) {
+	let dir = procs::scratch_dir("c13x");
+	let path = format!("{dir}/in.json");
+	std::fs::write(&path, b"{\"a\":1}\n").expect("write");
+	let names = ["j", "json", "m", "msgpack", "t", "toml", "y", "yaml"];
+	let form = |opt: &str, name: &str, k: usize| -> Vec<String> {
+		match k {
+			0 => vec![format!("-{opt}"), name.to_string()],
+			1 => vec![format!("-{opt}{name}")],
+			_ => vec![format!("-{opt}={name}")],
+		}
+	};
+	for (_, bin) in bins().into_iter().take(1) {
+		for opt in ["t", "f"] {
+			for a in names {
+				for b in names {
+					for k in 0..3 {
+						let mut args = form(opt, a, k);
+						args.extend(form(opt, b, (k + 1) % 3));
+						args.push(path.clone());
+						let r = procs::run_io(&bin, &args, None, Sink::Pipe, Duration::from_secs(30));
+						out.eval("repeated_option_is_usage_error", &args.join(" "), true);
+						let stderr = String::from_utf8_lossy(&r.stderr).to_string();
+						if r.status != Status::Exit(2) || !r.stdout.is_empty() || !stderr.starts_with("xt error") || !stderr.contains("Usage:") {
+							out.fail(
+								"repeated_option_is_usage_error",
+								"",
+								format!("xt {}: wait status {:?}, stdout {}, stderr {:?} — expected status 2, empty stdout, `xt error` + usage on stderr", args.join(" "), r.status, hex(&r.stdout), stderr),
+							);
+						}
+					}
+				}
+			}
+		}
+	}
+	let _ = std::fs::remove_dir_all(&dir);
+}
